@@ -18,6 +18,7 @@ HARNESSES = {
         ("c18_generate_unit_all_states", "qt", 300, False, "generate(0,1) in [0,1] for every state < 2^31-1"),
         ("c18_generate_any_seed", "qt", 300, False, "no overflow panic and values in range for every 64-bit seed (two calls)"),
         ("c18_generate_minmax", "qt", 600, False, "generate(min,max) in [min,max] for every state and all finite min<=max with |.|<=1e6"),
+        ("c18_generate_minmax_wide", "qt", 600, False, "generate(min,max) in [min,max] for every state and ALL finite min<=max (the width max-min may overflow to +inf; state 0 then multiplies 0 by inf)"),
         ("c18_purity_one_step", "qt", 600, False, "two generators created from the same seed agree bit-for-bit on the first value, every state"),
         ("c18_purity_two_steps_small_seeds", "qt", 900, False, "… and on the first two values for seeds < 2^16"),
         ("c18_purity", "t", 3600, False, "two generators created from the same seed produce bit-identical sequences (2 steps), every state"),
